@@ -8,17 +8,33 @@ def gen_case(rng, params):
     chunk = rng.choice([1, 2, 3, 7, params["readChunkSize"], params["readChunkSize"]])
     slice_ = params["sendSliceSize"]
     pat = g.gen_pat(rng)
-    lit = pat.value if pat.kind == "lit" else rng.choice(g.PROMPTS)
     n_cmds = rng.choice([1, 1, 2, 3])
+    if pat.kind == "lit":
+        lit = pat.value
+    elif rng.random() < 0.7:
+        lit = regen.sample(pat.value, rng) or rng.choice(g.PROMPTS)     # some string the regex prompt matches
+    else:
+        lit = rng.choice(g.PROMPTS)
+    flagged = pat.kind == "re" and rng.random() < 0.35
+    if flagged:
+        # the same regex is used case-insensitively and case-sensitively in ONE case (first flags drawn at random):
+        # what is looked for must depend on the flags of the prompt in force, not on those of an earlier one
+        first_icase = rng.random() < 0.5
+        lit = bytes(regen._swapcase(c) if rng.random() < 0.5 else c for c in lit)
+        n_cmds = max(n_cmds, 2)
     data = g.gen_stream(rng, lit, n_cmds)
-    if pat.kind == "re" and rng.random() < 0.7:
-        # make the regex likely to match somewhere: append a sample by brute force later
-        pass
     pieces = g.cut(rng, data)
     ticks = g.schedule(rng, pieces)
     ops = []
     per_call = rng.random() < 0.4
-    if pat.kind == "re":
+    if flagged:
+        for i in range(n_cmds):
+            w = regen.Pat("re", pat.value, icase=first_icase == (i % 2 == 0)).wire()
+            if rng.random() < 0.5:
+                ops.append(f"rup:{w}:{opt(g.timeout_choice(rng))}")
+            else:
+                ops += [f"wp+:{w}", f"rup:-:{opt(g.timeout_choice(rng))}", "wp-"]
+    elif pat.kind == "re":
         if per_call:
             ops += [f"rup:{pat.wire()}:{opt(g.timeout_choice(rng))}" for _ in range(n_cmds)]
         else:
@@ -43,7 +59,7 @@ def gen_case(rng, params):
 
 
 # ---- check-module interface -------------------------------------------------------------
-from chancommon import KIND, CASE_WALL, run_impl, shrink_candidates, classify_common  # noqa: E402
+from chancommon import KIND, CASE_WALL, run_impl, shrink_candidates, classify_common, model_request, spec_line  # noqa: E402
 
 SPECS = ["C02"]
 THEOREMS = ["C02.rupLoop_spec", "C02.readUntilPrompt_spec", "C02.rup_spec", "C02.case_spec", "ChanCase.keeps", "C02.rup_fragmentation", "C02.rup_fragmentation_gen", "C02.promptEnd_anchored_iff", "Re.M_sound", "Re.M_complete", "Re.L_maxWidth", "Re.search_sound", "Re.search_complete"]
@@ -62,6 +78,7 @@ ASSUMPTIONS = ["literal prompts are non-empty; regex prompts are configured thro
 
 def classify(line, obs):
     ks = classify_common(line, obs)
+    ks.append("icase=%d" % any(":I" in o for o in line.split()[4:]))
     ks.append("prompt=" + ("regex" if "X" in "".join(o for o in line.split()[4:] if o.startswith(("wp+", "rup"))) else "literal"))
     return ks
 
